@@ -413,7 +413,11 @@ fn field_name(p: &mut Parser) {
 fn visibility(p: &mut Parser) {
 	let m = p.start();
 	if !p.at_ts(TS![:]) {
+		// Nothing to bump here: the error node either consumed the offending token, or
+		// there was none (end of input / recovery token)
 		p.error_with_recovery_set(TS![=]);
+		m.complete(p, VISIBILITY);
+		return;
 	}
 	p.bump();
 	'colons: {
@@ -542,7 +546,8 @@ fn param(p: &mut Parser) {
 }
 fn params_desc(p: &mut Parser) -> CompletedMarker {
 	let m = p.start();
-	p.bump_assert(T!['(']);
+	// `function` keyword may be followed by anything in a broken input
+	p.expect(T!['(']);
 
 	loop {
 		if p.at(T![')']) {
@@ -910,7 +915,12 @@ fn lhs_basic(p: &mut Parser) -> Result<CompletedMarker, CompletedMarker> {
 	} else if p.at(T![import]) || p.at(T![importstr]) || p.at(T![importbin]) {
 		let m = p.start();
 		p.bump();
-		text(p);
+		if Text::can_cast(p.current()) {
+			text(p);
+		} else {
+			let _e = p.expected_syntax_name("import path string");
+			p.error_with_recovery_set(TS![]);
+		}
 		m.complete(p, EXPR_IMPORT)
 	} else if let Some(op) = UnaryOperatorKind::cast(p.current()) {
 		let ((), right_binding_power) = op.binding_power();
